@@ -85,6 +85,8 @@ DIRS = [
     ["{year}", "{month}{day}"],
     ["{sat}"],
     ["{year}", "m{month}", "{day}"],
+    ["{year}", "fixed", "{month}", "{day}"],        # literal level in the middle
+    ["{year}", "{month}", "{day}", "{sat}"],        # user placeholder below the day
 ]
 STARTS = {
     "full_s": "{year}{month}{day}_{hour}{minute}{second}",
